@@ -108,6 +108,13 @@ struct C19 : Profile {
       text += RET[r.below(12)];
       if (r.chance(0.25)) { std::string d; Rng dr(subseed(runseed(vseed, runno), "damage")); size_t nt = reflex(text).tokens.size(); text = damage_text(dr, text, (int)dr.weighted({3, 3, 2, 4, 2, 3, 1, 1, 1, 0}), dr.below(nt ? nt : 1), d); plan["damage"] = d; }
     }
+    if (mode == "file" || mode == "out" || mode == "stdin") {
+      // physical layout of the program file: CRLF line ends, and a first line whose terminator meets the chunk edges of the file reader
+      Rng lr(subseed(runseed(vseed, runno), "layout"));
+      long edge = lr.chance(0.25) ? lr.pick(std::vector<long>{1022, 1023, 2044, 2045, 2046}) + lr.range(-4, 4) : 0; bool crlf = lr.chance(0.3);
+      if (edge > 0) text = std::string((size_t)edge, ' ') + "\n" + text;
+      plan["crlf"] = crlf; plan["edge"] = edge;
+    }
     plan["text"] = enc(text);
     if (mode == "expr") { static const char* EX[] = {"1 + 2 * 3", "\"a\" + \"b\"", "2.5 * 2", "true and false", "str()", "tup(1, \"x\")", "tab(2, 3)", "1 / 0", "1 +", "nosuch + 1", "3 > 2", "int(2.9)", "\"quoted \\\"x\\\"\"", "10 % 3"}; plan["text"] = EX[r.below(14)]; }
     json args = json::array(); int na = (int)r.weighted({3, 2, 2, 1, 1});
@@ -152,9 +159,12 @@ struct C19 : Profile {
     std::vector<std::string> argv_s = {"bloc"};
     std::unique_ptr<SimStdin> sin;
     auto make_stdin = [&](const std::string& data) { sin.reset(new SimStdin(data, st.value("chunks", std::vector<int>()), st.value("tail", 0), st.value("timeouts", 0), st.value("eintr", 0))); };
-    if (mode == "file") { std::ofstream(progfile) << text; argv_s.push_back(progfile); }
-    else if (mode == "out") { std::ofstream(progfile) << text; argv_s.push_back("--out=" + outfile); argv_s.push_back(progfile); }
-    else if (mode == "stdin") { make_stdin(text); argv_s.push_back("-"); }
+    std::string cli_text = text;
+    if (plan.value("crlf", false)) { cli_text.clear(); for (char ch : text) { if (ch == '\n') cli_text += "\r\n"; else cli_text.push_back(ch); } ++res.probes["crlf_program_file"]; }
+    if (plan.value("edge", 0L) > 0) ++res.probes["line_end_at_reader_chunk_edge"];
+    if (mode == "file") { std::ofstream(progfile, std::ios::binary) << cli_text; argv_s.push_back(progfile); }
+    else if (mode == "out") { std::ofstream(progfile, std::ios::binary) << cli_text; argv_s.push_back("--out=" + outfile); argv_s.push_back(progfile); }
+    else if (mode == "stdin") { make_stdin(cli_text); argv_s.push_back("-"); }
     else if (mode == "expr") { argv_s.push_back("-e"); argv_s.push_back(text); }
     else { make_stdin(text); argv_s.push_back("-i"); }
     if (mode != "expr") for (auto& a : args) argv_s.push_back(a);
